@@ -174,6 +174,9 @@ pub fn one_script(r: &mut Rng, nlabels: usize, mode: &str) -> (Vec<u64>, Vec<u64
             if mode.contains("end") {
                 cands.push((1, vec![28, eu, r.below(3)]));
             }
+            if mode.contains("permits") {
+                cands.push((2, vec![29, eu, r.pick(&[0u64, 0, 1, 2, 999_999, 999_999])]));
+            }
         }
         if cands.is_empty() {
             break;
